@@ -311,6 +311,7 @@ def get_fastapi_app(
     from fastapi import FastAPI
 
     router = get_fastapi_router(converter, **(router_kwargs or {}))
-    app = FastAPI(**(fastapi_kwargs or {}))
+    # FastAPI's built-in ``/docs/oauth2-redirect`` route would shadow the prefix "docs" when the delimiter is "/"
+    app = FastAPI(**{"swagger_ui_oauth2_redirect_url": None, **(fastapi_kwargs or {})})
     app.include_router(router, **(include_kwargs or {}))
     return app
